@@ -60,15 +60,17 @@ Print Assumptions C15_reload_unit.
    Jacobian steps and possibly one reload row; the call ends either within all
    tolerances (of the targets active during the call) or on the knobs of a row
    rb logged during the call such that no row of the call -- in particular the
-   starting point -- has a penalty strictly below rb's.  The order laws are true
-   of IEEE doubles, NaN included. *)
+   starting point -- has a penalty strictly below rb's (numpy's argmin: the first
+   NaN if there is one, else the first minimum).  The three order laws are true of
+   IEEE doubles, NaN included.  [pre_clip E cf s] is s itself with check_limits=True. *)
 Theorem C15_take_best : forall (E : env) (cf : cfg (eF E)),
   (forall a b c, e_ltb E a b = true -> e_ltb E b c = true -> e_ltb E a c = true) ->
   (forall a, e_ltb E a a = false) ->
+  (forall a b, e_leb E b b = false -> e_ltb E a b = false) ->
   forall fuel n a b s s',
   opt_step E cf fuel n true a b s = Ok s' ->
-  exists r0 M extra, log s' = log s ++ (r0 :: M) ++ extra /\ r_knobs r0 = knobs s /\
-    ((exists res, e_f E (knobs s') = Some res /\ within_tol E cf (ta (pre_flags E cf a s)) res) \/
+  exists r0 M extra, log s' = log s ++ (r0 :: M) ++ extra /\ r_knobs r0 = knobs (pre_clip E cf s) /\
+    ((exists res, e_f E (knobs s') = Some res /\ within_tol E cf (ta (pre_flags E cf a (pre_clip E cf s))) res) \/
      exists rb, In rb (r0 :: M) /\ (forall r, In r (r0 :: M) -> e_ltb E (r_pen r) (r_pen rb) = false) /\
                 rt_rel E (c_w cf) (r_knobs rb) (knobs s')).
 Proof. exact take_best. Qed.
@@ -81,8 +83,8 @@ Definition xenv : env :=
         (fun k => Some (k ++ k)) (fun y => fold_right (fun a acc => (a * a + acc)%Qc) 0%Qc y)
         (fun m y => Some (map (fun _ => 1%Qc) m)) (fun j _ _ _ _ => j).
 Definition xcfg : cfg Qc :=
-  mkCfg [1%Qc] [Some (Q2Qc (-3), Q2Qc 3)] [1%Qc] [None] [0%N] [0%N]
-        [Q2Qc 2; Q2Qc 2] [Q2Qc (1 # 10); Q2Qc (1 # 10)] [1%Qc; 1%Qc] [0%N; 0%N] 3 true true.
+  mkCfg [1%Qc] [Some (Some (Q2Qc (-3)), Some (Q2Qc 3))] [1%Qc] [None] [0%N] [0%N]
+        [Q2Qc 2; Q2Qc 2] [Q2Qc (1 # 10); Q2Qc (1 # 10)] [1%Qc; 1%Qc] [0%N; 0%N] 3 true true true.
 
 (* a constructed optimizer, a step with take_best, a reload and a failing solve:
    a reachable state with 10 rows *)
@@ -107,11 +109,14 @@ Print Assumptions C15_reach_satisfiable.
 Example C15_order_laws_satisfiable :
   (forall a b c, e_ltb xenv a b = true -> e_ltb xenv b c = true -> e_ltb xenv a c = true) /\
   (forall a, e_ltb xenv a a = false) /\
+  (forall a b, e_leb xenv b b = false -> e_ltb xenv a b = false) /\
   (forall x, e_mul xenv (e_div xenv x (e_one xenv)) (e_one xenv) = x).
 Proof.
-  cbn. split; [|split].
+  cbn. split; [|split; [|split]].
   - intros a b c H1 H2. apply qltb_true in H1. apply qltb_true in H2. apply qltb_true. eapply Qclt_trans; eauto.
   - intros a. apply qltb_false. apply Qcle_refl.
+  - intros a b H. exfalso. assert (Hq : qltb b b = false) by (apply qltb_false; apply Qcle_refl).
+    rewrite Hq in H. discriminate.
   - intros x. field. discriminate.
 Qed.
 Print Assumptions C15_order_laws_satisfiable.
